@@ -153,7 +153,7 @@ class Host(threading.Thread):
                     break
                 if cmd[0] == "run_app":
                     try:
-                        self.loop.run_until_complete(self.rig.app.run_async())
+                        self.loop.run_until_complete(self.rig.app.run_async(**self.rig.run_app_kwargs))
                     except EOFError:
                         pass
                 elif cmd[0] == "run_cbs":
@@ -241,6 +241,9 @@ class Rig:
         self.crashed = []
         self.exts = collections.deque()
         self.closers = []
+        self.fail_next_render = False
+        self.render_failures = 0
+        self.run_app_kwargs = {}
         self.flags = set()
         self._cms = []
         self.sio = io.StringIO()
@@ -302,6 +305,7 @@ class Rig:
             return loop
         self.proxy._write_and_flush = waf
         self.proxy._get_app_loop = gal
+        self._install_buffer_probe()
         self.host = Host(self, contextvars.copy_context())
         self.host.start()
         self.writers = [Writer(self, k) for k in range(nwriters)]
@@ -311,6 +315,46 @@ class Rig:
             self.gate.wait_parked(self.fthread, self.crashed)
 
     # -- instrumentation
+    def _install_buffer_probe(self):
+        """Observe (never change) who touches the shared `_buffer`: the model's
+        only labels that do are LW/LFlush = the body of write()/flush() under
+        `_lock`.  An observing subclass with a `_buffer` data descriptor
+        records every access made by a thread that does not own `_lock`."""
+        rig = self
+        proxy = self.proxy
+        base = type(proxy)
+        self.unlocked = []
+        lock = proxy.__dict__.get("_lock")
+        owned = getattr(lock, "_is_owned", None)
+        if "_buffer" not in proxy.__dict__ or owned is None:
+            self.unlocked.append(("probe-not-installable", "?"))
+            return
+        harness_thread = threading.current_thread()
+
+        def note(op):
+            t = threading.current_thread()
+            if t is harness_thread:
+                return
+            lk = proxy.__dict__.get("_lock")
+            try:
+                ok = lk._is_owned()
+            except Exception:  # noqa
+                ok = False
+            if not ok and len(rig.unlocked) < 50:
+                rig.unlocked.append((op, t.name))
+
+        def fget(self_):
+            note("read")
+            return self_.__dict__["_buffer"]
+
+        def fset(self_, v):
+            note("assign")
+            self_.__dict__["_buffer"] = v
+        proxy.__class__ = type(base.__name__ + "Observed", (base,), {"_buffer": property(fget, fset)})
+
+    def buffer_value(self):
+        return self.proxy.__dict__.get("_buffer", [])
+
     def _wrap_renderer(self):
         r = self.app.renderer
         oe, orr = r.erase, r.render
@@ -325,6 +369,10 @@ class Rig:
 
         def render(*a, **k):
             self.events.append(("r",))
+            if self.fail_next_render:
+                self.fail_next_render = False
+                self.render_failures += 1
+                raise RuntimeError("c20 fault: widget failure during render")
             self.render_depth += 1
             try:
                 return orr(*a, **k)
@@ -482,7 +530,7 @@ class Rig:
         for it in list(self.proxy._flush_queue.queue):
             q.append(S(it) if isinstance(it, str) else [-1])
         lf = self.app._running_in_terminal_f
-        return [f, S("".join(self.proxy._buffer)), q, [S(t[4]) for t in self.loop_pending],
+        return [f, S("".join(self.buffer_value())), q, [S(t[4]) for t in self.loop_pending],
                 int(self.session.app is not None and self.session.app.loop is not None),
                 int(bool(self.app._is_running)), int(lf is not None and not lf.done()),
                 int(bool(self.app._running_in_terminal)), len(self.events)]
@@ -505,7 +553,7 @@ class Rig:
                 evs.append([1])
             else:
                 evs.append([2, S(e[1]), int(e[2]), int(e[3])])
-        return [evs, [S(t) for t in self.lost], [S(t) for t in self.handed]]
+        return [evs, [S(t) for t in self.lost], [S(t) for t in self.handed], len(self.unlocked)]
 
     # -- let everything run to its end, generously, then tear down
     def finish(self, complete=True):
